@@ -1623,8 +1623,18 @@ std::ostream& expression_t::print(std::ostream& os, bool old) const
         os << "X(";
         get(0).print(os, old) << ")";
         break;
-    case SPAWN: os << "SPAWN"; break;
-    case EXIT: os << "EXIT"; break;
+    case SPAWN:
+        // sub-expression 0 is the dynamic template, the others are its arguments
+        os << "spawn ";
+        get(0).print(os, old) << "(";
+        for (uint32_t i = 1; i < get_size(); ++i) {
+            if (i > 1)
+                os << ", ";
+            get(i).print(os, old);
+        }
+        os << ")";
+        break;
+    case EXIT: os << "exit()"; break;
     case NUMOF:
         os << "numof(";
         get(0).print(os, old) << ")";
